@@ -735,6 +735,30 @@ def sweep_hms(ctx, tie):
             tie.force(check_hms, (base, k, delta), res[1])
 
 
+def text_times(ctx):
+    """a time of day typed as text (24 hour clock, and 12 hour clock with AM / PM): HOUR / MINUTE / SECOND give the
+    parts that are written there (12 AM is hour 0, 12 PM is hour 12)"""
+    n = 0
+    for h in range(24):
+        for m, s_ in ((0, 0), (30, 15), (59, 59), (5, 9)):
+            n += 1
+            if not ctx.mine(n):
+                continue
+            h12 = h % 12 or 12
+            for text in (f'{h}:{m:02d}:{s_:02d}', f'{h:02d}:{m:02d}:{s_:02d}',
+                         f'{h12}:{m:02d}:{s_:02d} {"AM" if h < 12 else "PM"}',
+                         f'{h12}:{m:02d}:{s_:02d} {"am" if h < 12 else "pm"}'):
+                ctx.count('text_time_cases')
+                ctx.case(('text-time', text))
+                for name, want in (('hour', h), ('minute', m), ('second', s_)):
+                    got = lib.call(name, text)
+                    if got != ('v', want):
+                        ctx.violation(f'{name.upper()}/time-typed-as-text',
+                                      f'{name.upper()}({text!r}) = {got!r}, expected {want}',
+                                      {'part': 'text-time', 'text': text})
+                        break
+
+
 # --------------------------------------------------------------------------- the 1 % tie to evaluate
 
 class _Recorded(Exception):
@@ -838,6 +862,7 @@ def run(ctx):
     sweep_date(ctx, tie)
     sweep_shift(ctx, tie)
     sweep_hms(ctx, tie)
+    text_times(ctx)
     sweep_yearfrac(ctx, tie)
     sweep_days(ctx, tie)
     tie.flush()
@@ -856,6 +881,9 @@ def replay(ctx, case):
     cal.selfcheck()
     ev = EVALS[case.get('mode', 'lib')]
     part = case['part']
+    if part == 'text-time':
+        text_times(ctx)
+        return
     if part == 'day':
         check_day(ctx, ev, case['n'])
     elif part == 'date':
